@@ -157,9 +157,33 @@ class Prop:
             out.append(('random', gen.random_interleaving(rng, seqs)))
         return out
 
+    def many_slots(self, rng, tier):
+        """many messages in flight at once, each in its own (sequence id, channel) slot: the ids 0-9 and none on the
+        channels A and B alone are 22 slots; other channel designators (1, 2, none, C, D) and two-digit ids (their
+        textual concatenation with the channel must not collide: (1, '1') and (11, '')) make many more"""
+        seqs = [''] + [str(i) for i in range(13)]
+        chans = ['A', 'B', '1', '2', '', 'C', 'D']
+        slots = [(s_, c) for c in chans for s_ in seqs]
+        out = []
+        for n in ([21, 23, 34, 70, len(slots)] if tier == 'quick' else [21, 22, 23, 33, 34, 65, 66, 70, 98] * 4):
+            n = min(n, len(slots))
+            chosen = slots[:22] + rng.sample(slots[22:], n - 22) if n > 22 else slots[:n]
+            # the colliding pair is always among them
+            for must in (('1', '1'), ('11', '')):
+                if must not in chosen:
+                    chosen[-1 if must == ('1', '1') else -2] = must
+            msgs = [Msg(rng, 2, s_, c) for s_, c in chosen]
+            firsts = [(m, 0) for m in msgs]
+            seconds = [(m, 1) for m in msgs]
+            out.append(('many-slots=%d' % n, firsts + seconds))
+            out.append(('many-slots=%d' % n, firsts + seconds[::-1]))
+            out.append(('many-slots=%d' % n, gen.random_interleaving(rng, [[(m, 0), (m, 1)] for m in msgs])))
+        return out
+
     def run(self, ctx):
         rng = ctx.rng('c03')
         cases = self.configs(rng, ctx.tier) + self.random_schedules(rng, 300 if ctx.tier == 'quick' else 6000)
+        cases += self.many_slots(ctx.rng('c03-many'), ctx.tier)
         for fe in ('iter', 'queue', 'bytestream'):
             ops = ['stream %s 0 %s' % (fe, ' '.join(m.lines[i].hex() for m, i in sched)) for _, sched in cases]
             outs = ctx.corr(ops, impl.step, 'stream-' + fe, nontrivial=lambda l, o: '0a21' in o)
